@@ -35,7 +35,14 @@ ASSUMPTIONS = ["std::basic_string of libstdc++ 12 is the reference for spec vali
                "an operation never receives a pointer into the string it modifies (no self-aliasing arguments)"]
 TRUSTED = ["hand model Tetl/C04/Model.lean (+ Tetl/C08/Model.lean for the delegated searches) tied to the source by the correspondence run (R1) on every run",
            "spec Tetl/C04/Spec.lean validated against libstdc++ std::basic_string (R2) on every run"]
-THEOREMS = {}
+_STEP = ["Tetl.C04.Props.step_rep", "Tetl.C04.Props.inv_step", "Tetl.C04.Props.refines_step", "Tetl.C04.Props.overload_arg_eq"]
+THEOREMS = {op: _STEP for op in ("assign", "opassign", "ctor", "clear", "push_back", "pop_back", "append", "pluseq", "insert",
+                                 "erase", "erase_value", "resize")}
+THEOREMS.update({"swap": ["Tetl.C04.Props.swap_eq"], "substr": ["Tetl.C04.Props.substr_eq"],
+                 "compare": ["Tetl.C04.Props.compare_sign", "Tetl.C04.Props.compare_pos_count_eq",
+                             "Tetl.C04.Props.compare_pos_count_pos_count_eq"],
+                 "rel": ["Tetl.C04.Props.compare_sign"], "new": ["Tetl.C04.Props.mk0_rep"],
+                 "state": ["Tetl.C04.Props.inv_history"], "raw": ["Tetl.C04.Props.inv_history"]})
 SEARCH_CAP = 400000
 
 NPARTS = 16
